@@ -221,6 +221,14 @@ def run(ctx):
         for so in g.calls(SORT):
             if so.args and g.root_local(so.args[0], through_calls=THR) == root and len(so.args) > 1 and reads_to_seq(g, so.args[1]) and g.dom(so.bb, site.bb):
                 return so
+        # `sort_by_to_seq(&mut unique)`: a helper of the crate that sorts the list it is handed
+        for c_ in g.sites():
+            H = P.fns.get(c_.callee or '')
+            if H is None or H.crate != 'ripd' or not g.dom(c_.bb, site.bb):
+                continue
+            for k_, a_ in enumerate(c_.args):
+                if g.root_local(a_, through_calls=THR) == root and any(so.args and H.root_local(so.args[0], through_calls=THR) == k_ + 1 and len(so.args) > 1 and reads_to_seq(H, so.args[1]) for so in H.calls(SORT)):
+                    return c_
         return None
 
     n5 = 0
